@@ -10,14 +10,14 @@ From NPGen Require Import SeqnumGen.
 Open Scope Z_scope.
 
 Ltac unf_all :=
-  unfold gen_LessThan, gen_LessThanEq, gen_InRange, gen_InWindow, gen_Overlap, gen_Add, gen_Size,
-         gen_UpdateForward, g_u32, g_i32,
-         lessThan, lessThanEq, inRange, inWindow, overlap, add, size, updateForward, u32 in *.
+  cbv beta delta [gen_LessThan gen_LessThanEq gen_InRange gen_InWindow gen_Overlap gen_Add gen_Size
+         gen_UpdateForward g_u32 g_i32
+         lessThan lessThanEq inRange inWindow overlap add size updateForward u32] in *.
 Ltac consts := change (2^32) with 4294967296 in *; change (2^31) with 2147483648 in *.
 Ltac splitifs :=
   repeat match goal with
-         | |- context [if ?c then _ else _] => let E := fresh "E" in destruct c eqn:E
-         | H : context [if ?c then _ else _] |- _ => let E := fresh "E" in destruct c eqn:E
+         | |- context [if ?c then _ else _] => let E := fresh "E" in destruct c eqn:E; cbv iota in *
+         | H : context [if ?c then _ else _] |- _ => let E := fresh "E" in destruct c eqn:E; cbv iota in *
          end.
 Ltac toprop :=
   repeat match goal with
